@@ -177,6 +177,16 @@ def apply_variant(spec, var):
             p = var[1] % len(q)
             s["sql"] = q[:p] + (ch if name == "sql_sub" else "") + q[p + 1 :]
         return s
+    if name == "sql_ws":
+        # one white-space run of the SQL text changed in kind or length (blank -> two blanks / tab / line break)
+        q = s["sql"]
+        ws = [i for i, ch in enumerate(q) if ch in " \t\n"]
+        if ws:
+            p = ws[var[1] % len(ws)]
+            s["sql"] = q[:p] + [q[p] * 2, "\t", "\n", " \n "][var[2] % 4] + q[p + 1 :]
+            if s["sql"] == q:
+                s["sql"] = q[:p] + "  " + q[p + 1 :]
+        return s
     if name == "add_table":
         nn = _fresh(TABNAMES, [t for t, _ in tabs], var[1])
         if nn is not None:
@@ -681,6 +691,8 @@ _variant = st.one_of(
     st.tuples(st.just("reorder_tables")),
     st.tuples(st.just("sql_sub"), _I, _I),
     st.tuples(st.just("sql_ins"), _I, _I),
+    st.tuples(st.just("sql_ws"), _I, _I),
+    st.tuples(st.just("sql_ws"), _I, _I),
     st.tuples(st.just("sql_del"), _I),
     st.tuples(st.just("model"), _I),
     st.tuples(st.just("retype_col"), _I, _I),
